@@ -93,6 +93,116 @@ def e2e_worker(bdir, lo, hi, tier):
     return res
 
 
+def rspawn_e2e_worker(bdir, lo, hi, tier):
+    """'for every message in the queue': the real qmail-rspawn starts the real qmail-remote on message files
+    below queue/mess, one long-lived spawner handling several deliveries (the same message to several recipients
+    in a row, another message in between) -> loopback sink; every payload must decode to ITS queue file."""
+    import select as _select
+    import subprocess
+    res = core.Result()
+    b = build.Build("asan", bdir)
+    home = build.mktemp("nqv-c06r-")
+    sink = smtpsink.Sink()
+    try:
+        sandbox.make_home(b, home, controls={"me": "client.test", "timeoutremote": 5, "smtproutes": ":127.0.0.1:%d" % sink.port},
+                          bins=("qmail-rspawn", "qmail-remote"))
+        for i in range(lo, hi):
+            rng = core.case_rng(PROP, i, "rspawn")
+            msgs = {}
+            for sub, num in ((0, 23), (1, 24)):
+                m = smtpdata.gen_message(rng)
+                if not m.endswith(b"\n"):
+                    m += b"\n"
+                if len(m) < 8:
+                    m = b"Subject: short %d\n\n" % num + m
+                os.makedirs("%s/queue/mess/%d" % (home, sub), exist_ok=True)
+                fn = "%s/queue/mess/%d/%d" % (home, sub, num)
+                with open(fn, "wb") as f:
+                    f.write(m)
+                os.chown(fn, sandbox.uid("q"), sandbox.gid("q"))
+                msgs[b"%d/%d" % (sub, num)] = m
+            with open(home + "/queue/lock/tcpto", "wb") as f:
+                f.write(b"\0" * 1024)
+            order = rng.choice([[b"0/23", b"0/23"], [b"0/23", b"0/23", b"0/23"], [b"0/23", b"1/24", b"0/23"], [b"1/24", b"0/23", b"0/23", b"1/24"]])
+            errf = open(home + "/rspawn.err", "wb+")
+            p = subprocess.Popen([home + "/bin/qmail-rspawn"], stdin=subprocess.PIPE, stdout=subprocess.PIPE, stderr=errf,
+                                 env=b.env(home, {"PATH": home + "/bin:" + os.environ.get("PATH", "/usr/bin:/bin")}))   # as qmail-start(8) runs it
+            try:
+                buf = bytearray()
+                got_first = False
+                for k, mid in enumerate(order):
+                    sink.start(smtpsink.Script())
+                    slot = rng.randrange(0, 4)
+                    p.stdin.write(bytes([slot]) + mid + b"\0s@client.test\0r%d@remote.test\0" % k)
+                    p.stdin.flush()
+                    t_end = time.time() + 60
+                    rep = None
+                    while time.time() < t_end and rep is None:
+                        start = 0 if got_first else 1
+                        if len(buf) > start:
+                            e = buf.find(b"\0", start + 1)
+                            if e >= 0:
+                                rep = bytes(buf[start:e])
+                                del buf[:e + 1]
+                                got_first = True
+                                break
+                        r, _, _ = _select.select([p.stdout], [], [], 1.0)
+                        if r:
+                            chunk = os.read(p.stdout.fileno(), 65536)
+                            if not chunk:
+                                break
+                            buf.extend(chunk)
+                    tr = sink.finish()
+                    res.evaluations += 1
+                    msg = msgs[mid]
+                    wit = {"case": i, "order": [x.decode() for x in order], "delivery": k, "message_id": mid.decode(), "msg_hex": msg[:400].hex(),
+                           "payload": core.hx((tr.payload or b"")[:300]), "report": core.hx((rep or b"")[:120])}
+                    if rep is None:
+                        errf.seek(0)
+                        e_ = errf.read().decode("latin1")
+                        if "Sanitizer" in e_:
+                            res.violate("C20/sanitizer/qmail-rspawn/" + hrun.sanitizer_site(e_), "qmail-rspawn died", wit)
+                        else:
+                            res.inconclusive.append("no report from qmail-rspawn for delivery %d of case %d" % (k, i))
+                        break
+                    if rep[:1] != bytes([slot]):
+                        res.violate("C06/rspawn/report-for-another-slot", "report carries delivery number %r, command had %d" % (rep[:1], slot), wit)
+                        break
+                    if tr.payload is None or not tr.payload.endswith(b"\r\n.\r\n"):
+                        if rep[1:2] == b"K":
+                            res.violate("C06/rspawn/K-without-complete-payload", "success reported although the server saw no complete payload", wit)
+                        else:
+                            res.violate("C06/rspawn/no-payload", "delivery %d of a queued message transmitted no complete payload" % k, wit)
+                        break
+                    r_ = smtpdata.ref_decode(tr.payload)
+                    if r_[0] != "ok" or r_[2] != len(tr.payload):
+                        res.violate("C06/rspawn/%s" % r_[0], "payload framing", wit)
+                        break
+                    g = smtpdata.c06_grade(msg, r_[1])
+                    if g:
+                        res.violate("C06/rspawn/%s/%s" % (g, "repeat-of-same-message" if mid in order[:k] else "first-delivery"),
+                                    "delivery %d (message %s, order %r): the receiver reconstructs %d bytes, the queue file has %d"
+                                    % (k, mid.decode(), [x.decode() for x in order], len(r_[1]), len(msg)), wit)
+                        break
+                    res.counters.inc("rspawn_deliveries_ok")
+                    res.nontrivial("rspawn", i, k)
+            finally:
+                try:
+                    p.stdin.close()
+                except OSError:
+                    pass
+                try:
+                    p.wait(timeout=20)
+                except subprocess.TimeoutExpired:
+                    p.kill()
+                    p.wait()
+                p.stdout.close()
+                errf.close()
+    finally:
+        sink.close()
+    return res
+
+
 def main(tier):
     t0 = time.time()
     b = build.vbuild("asan")
@@ -132,9 +242,16 @@ def main(tier):
     # (c) end to end
     eres = core.pmap(e2e_worker, [(b.dir, lo, hi, tier) for lo, hi in core.chunks(ne2e, 16)], timeout=1200)
     res.merge(eres)
+    # (d) through the real spawner: several deliveries of the same queue file by one qmail-rspawn
+    nr = core.scaled(96 if tier == "quick" else 2400)
+    rres = core.pmap(rspawn_e2e_worker, [(b.dir, lo, hi, tier) for lo, hi in core.chunks(nr, 16)], timeout=1200)
+    res.merge(rres)
+    if not res.counters.get("rspawn_deliveries_ok"):
+        res.inconclusive.append("no delivery through qmail-rspawn completed")
     rule = ("(a) every string over {CR,LF,'.','a'} of length <= %d through the real blast() under whole / 1-byte / "
             "every split (len<=7) read chunkings + %d random messages up to 64 KB; (b) payloads of length <= %d re-decoded by the "
-            "real qmail-smtpd blast(); (c) %d messages real qmail-remote -> loopback server. Non-trivial = message contains "
+            "real qmail-smtpd blast(); (c) %d messages real qmail-remote -> loopback server; (d) real qmail-rspawn starting the real "
+            "qmail-remote on queue files, 2-4 deliveries per spawner incl. repeats of one message. Non-trivial = message contains "
             "CR, LF or '.'; distinct = distinct input strings (hash set in the harness, saturating => undercount)." % (maxL, nrand, emitL, ne2e))
     extra = {"exhaustive": True, "exhaustive_scope": "all strings of length <= %d over a 4-symbol alphabet" % maxL}
     return core.finish(PROP, tier, "exploration", res, rule, t0, extra=extra, assumptions=[
